@@ -52,6 +52,8 @@
 //!
 //!
 
+#![allow(unexpected_cfgs)]
+
 /// The default type for an Elias–Fano structure implementing an [`IndexedSeq`].
 ///
 /// You can start from this type to customize your Elias–Fano structure using
@@ -78,6 +80,34 @@ pub type EfSeqDict = EliasFano<
         3,
     >,
 >;
+
+// Simulation seam (off unless built with --cfg sux_verif): in this file the
+// name `AtomicUsize` resolves to the same std atomic with a scheduling point of
+// the simulator in front of every memory operation.
+#[cfg(all(sux_verif, not(sux_verif_stdatomic)))]
+#[allow(unused_imports)]
+mod std {
+    pub use ::std::*;
+    pub mod sync {
+        pub use ::std::sync::*;
+        pub mod atomic {
+            pub use ::std::sync::atomic::*;
+            pub use ::verif_rt::SimAtomicUsize as AtomicUsize;
+        }
+    }
+}
+#[cfg(all(sux_verif, not(sux_verif_stdatomic)))]
+#[allow(unused_imports)]
+mod core {
+    pub use ::core::*;
+    pub mod sync {
+        pub use ::core::sync::*;
+        pub mod atomic {
+            pub use ::core::sync::atomic::*;
+            pub use ::verif_rt::SimAtomicUsize as AtomicUsize;
+        }
+    }
+}
 
 use crate::prelude::*;
 use crate::traits::bit_field_slice::*;
